@@ -105,7 +105,7 @@ def jobs_for(tier, rng):
                 if tier == "quick" and rng.random() > 0.22:
                     continue
                 jobs.append((op, "pathops" if rng.random() < 0.5 else "types", (i, j), rr))
-    ntr = 500 if tier == "quick" else 30000
+    ntr = 500 if tier == "quick" else 8000
     for _ in range(ntr):
         k = rng.choice([3, 3, 4])
         idxs = tuple(rng.randrange(n) for _ in range(k))
